@@ -413,8 +413,8 @@ def is_len_of(pred):
 
 
 def aggregate_only(t):
-    """a condition built only from scalar aggregates (len(), .size, .n_rows, constants): it cannot establish
-    an element-wise / per-row relation"""
+    """a condition built only from scalars (len(), .size, .n_rows, constants, single elements x[0]): finitely many
+    scalars cannot establish an element-wise / per-row relation over all rows"""
     if t.k == "cmp":
         return _aggregate(t.a[1]) and _aggregate(t.a[2])
     if t.k == "bool":
@@ -433,6 +433,10 @@ def _aggregate(t):
         return True
     if t.k == "bin":
         return _aggregate(t.a[1]) and _aggregate(t.a[2])
+    if t.k == "sub" and t.a[1].k == "const" and isinstance(t.a[1].a[0], int):
+        return True            # one element of an array is a scalar too: it says nothing about the other elements
+    if t.k == "sub" and t.a[1].k == "un" and t.a[1].a[1].k == "const":
+        return True
     return False
 
 
